@@ -1965,14 +1965,18 @@ class Backend:
         builddir = self.environment.get_build_dir()
         for h in headers:
             outdir = outdir_name = h.get_custom_install_dir()
+            subdir = h.get_install_subdir()
             if outdir is None:
-                subdir = h.get_install_subdir()
                 if subdir is None:
                     outdir = incroot
                     outdir_name = '{includedir}'
                 else:
                     outdir = os.path.join(incroot, subdir)
                     outdir_name = os.path.join('{includedir}', subdir)
+            elif subdir:
+                # install_dir and subdir are mutually exclusive, so this is
+                # the child directory kept by preserve_path
+                outdir = outdir_name = os.path.join(outdir, subdir)
 
             for f in h.get_sources():
                 abspath = f.absolute_path(srcdir, builddir)
